@@ -64,6 +64,143 @@ theorem C07_header_width_except (inputHeader : List Str) (cols : List Nat) (rec_
         split <;> simp_all
   exact key inputHeader rec_ 0 hw.symm
 
+/-- a select item and the column info derived from its text belong together: star forms with star infos, anything else with a one-column info -/
+def aligned : List SItem → List ColInfo → Prop
+  | [], [] => True
+  | it :: its, ci :: cis =>
+    (match it, ci with
+     | .star, .star none => True
+     | .starA, .star (some false) => True
+     | .starB, .star (some true) => True
+     | .expr _, ci => ci.isStar = false
+     | .unnest _, ci => ci.isStar = false
+     | .agg _ _, ci => ci.isStar = false
+     | _, _ => False) ∧ aligned its cis
+  | _, _ => False
+
+theorem width_of_not_star (ci : ColInfo) (na nb : Nat) (h : ci.isStar = false) : ci.width na nb = 1 := by
+  cases ci with
+  | star t => simp [ColInfo.isStar] at h
+  | _ => rfl
+
+/-- number of fields one select item contributes for the record in `e` -/
+def itemWidth (e : Env) : SItem → Nat
+  | .star => e.a.length + (e.b.getD []).length
+  | .starA => e.a.length
+  | .starB => (e.b.getD []).length
+  | _ => 1
+
+/-- the head step of `evalItemsFrom`, named -/
+def evalHead (seen : Bool) (it : SItem) (e : Env) : Except ErrKind (Row × Option (List Atom)) :=
+  match it with
+  | .expr f => do let v ← f e; pure ([v], none)
+  | .star => pure (e.a ++ e.b.getD [], none)
+  | .starA => pure (e.a, none)
+  | .starB => pure (e.b.getD [], none)
+  | .unnest f => do
+    let l ← f e
+    if seen then .error .unnestTwice else pure ([Val.none], some l)
+  | .agg _ f => do let v ← f e; pure ([v], none)
+
+theorem evalItemsFrom_cons (seen : Bool) (it : SItem) (rest : List SItem) (e : Env) :
+    evalItemsFrom seen (it :: rest) e =
+      (evalHead seen it e).bind (fun p =>
+        (evalItemsFrom (seen || p.2.isSome) rest e).bind (fun q =>
+          match p.2, q.2 with
+          | some l, _ => .ok (p.1 ++ q.1, some (0, l))
+          | none, some (k, l) => .ok (p.1 ++ q.1, some (p.1.length + k, l))
+          | none, none => .ok (p.1 ++ q.1, none))) := by
+  cases it <;> rfl
+
+theorem evalHead_length (seen : Bool) (it : SItem) (e : Env) (hd : Row) (un : Option (List Atom))
+    (h : evalHead seen it e = .ok (hd, un)) : hd.length = itemWidth e it := by
+  cases it with
+  | expr f => cases hf : f e <;> simp [evalHead, hf, bind, Except.bind, pure, Except.pure] at h; simp [← h.1, itemWidth]
+  | agg k f => cases hf : f e <;> simp [evalHead, hf, bind, Except.bind, pure, Except.pure] at h; simp [← h.1, itemWidth]
+  | unnest f =>
+    cases hf : f e with
+    | error err => simp [evalHead, hf, bind, Except.bind] at h
+    | ok l => cases seen <;> simp [evalHead, hf, bind, Except.bind, pure, Except.pure] at h; simp [← h.1, itemWidth]
+  | star => simp [evalHead, pure, Except.pure] at h; simp [← h.1, itemWidth]
+  | starA => simp [evalHead, pure, Except.pure] at h; simp [← h.1, itemWidth]
+  | starB => simp [evalHead, pure, Except.pure] at h; simp [← h.1, itemWidth]
+
+theorem evalItemsFrom_length (items : List SItem) (seen : Bool) (e : Env) (row : Row) (un : Option (Nat × List Atom))
+    (h : evalItemsFrom seen items e = .ok (row, un)) : row.length = (items.map (itemWidth e)).sum := by
+  induction items generalizing seen row un with
+  | nil => simp [evalItemsFrom] at h; simp [h.1]
+  | cons it rest ih =>
+    rw [evalItemsFrom_cons] at h
+    cases hh : evalHead seen it e with
+    | error err => simp [hh, Except.bind] at h
+    | ok p =>
+      obtain ⟨hd, u1⟩ := p
+      simp only [hh, Except.bind] at h
+      cases hr : evalItemsFrom (seen || u1.isSome) rest e with
+      | error err => simp [hr] at h
+      | ok q =>
+        obtain ⟨tl, u2⟩ := q
+        have hl := evalHead_length seen it e hd u1 hh
+        have ht := ih _ tl u2 hr
+        simp only [hr] at h
+        have : row = hd ++ tl := by
+          cases u1 with
+          | some l => simp at h; exact h.1.symm
+          | none =>
+            cases u2 with
+            | some kl => obtain ⟨k, l⟩ := kl; simp at h; exact h.1.symm
+            | none => simp at h; exact h.1.symm
+        subst this
+        simp [hl, ht]
+
+theorem itemWidth_eq_infoWidth (items : List SItem) (infos : List ColInfo) (hal : aligned items infos) (e : Env) :
+    (items.map (itemWidth e)).sum = (infos.map (ColInfo.width e.a.length (e.b.getD []).length)).sum := by
+  induction items generalizing infos with
+  | nil => cases infos with | nil => rfl | cons _ _ => simp [aligned] at hal
+  | cons it its ih =>
+    cases infos with
+    | nil => simp [aligned] at hal
+    | cons ci cis =>
+      obtain ⟨h1, h2⟩ := hal
+      have hrest := ih cis h2
+      have hhead : itemWidth e it = ci.width e.a.length (e.b.getD []).length := by
+        cases it with
+        | star => cases ci with
+          | star t => cases t with
+            | none => rfl
+            | some b => cases b <;> simp at h1
+          | _ => simp at h1
+        | starA => cases ci with
+          | star t => cases t with
+            | none => simp at h1
+            | some b => cases b with | false => rfl | true => simp at h1
+          | _ => simp at h1
+        | starB => cases ci with
+          | star t => cases t with
+            | none => simp at h1
+            | some b => cases b with | true => rfl | false => simp at h1
+          | _ => simp at h1
+        | expr f => rw [width_of_not_star ci _ _ h1]; rfl
+        | unnest f => rw [width_of_not_star ci _ _ h1]; rfl
+        | agg k f => rw [width_of_not_star ci _ _ h1]; rfl
+      simp [hhead, hrest]
+
+/-- the record the engine builds for a select list has one field per one-column item and |a| (+ |b|) fields per star form -/
+theorem evalItems_width (items : List SItem) (infos : List ColInfo) (hal : aligned items infos) (seen : Bool) (e : Env)
+    (row : Row) (un : Option (Nat × List Atom)) (h : evalItemsFrom seen items e = .ok (row, un)) :
+    row.length = (infos.map (ColInfo.width e.a.length (e.b.getD []).length)).sum := by
+  rw [evalItemsFrom_length items seen e row un h, itemWidth_eq_infoWidth items infos hal e]
+
+/-- Header and records agree, end to end: for a select list whose items and column infos are aligned, over records as wide as
+their headers, every record the engine builds has exactly as many fields as the header has names. -/
+theorem C07_header_matches_records (items : List SItem) (infos : List ColInfo) (hal : aligned items infos)
+    (inputHeader joinHeader : List Str) (e : Env) (hna : e.a.length = inputHeader.length) (hnb : (e.b.getD []).length = joinHeader.length)
+    (h : List Str) (hh : selectOutputHeader (some inputHeader) (some joinHeader) infos = .ok (some h))
+    (row : Row) (un : Option (Nat × List Atom)) (hr : evalItems items e = .ok (row, un)) :
+    h.length = row.length := by
+  rw [C07_header_width inputHeader joinHeader infos e.a.length (e.b.getD []).length hna hnb h hh]
+  exact (evalItems_width items infos hal false e row un hr).symm
+
 /-- naming rules, per kind (acc = names already produced, so `acc.length + 1` is the output position) -/
 theorem C07_names (ih jh : List Str) (acc : List Str) :
     headerLoop ih jh [.alias n] acc = acc ++ [n] ∧
